@@ -737,7 +737,7 @@ pub fn families(thorough: bool) -> Vec<Family> {
     }
     vec![
         Family { name: "latest-socket", symbols: a, max_len: if thorough { 5 } else { 4 }, need_back: false },
-        Family { name: "any-socket", symbols: b, max_len: if thorough { 4 } else { 3 }, need_back: true },
+        Family { name: "any-socket", symbols: b, max_len: if thorough { 5 } else { 4 }, need_back: true },
     ]
 }
 
